@@ -52,6 +52,13 @@ CHECKS = {
          "alphabet through every ==/identity-predicate form, hashing with a fixed hasher; recipes that manufacture equal "
          "elements with different representatives ((-1)*Q vs -Q, P+Q-Q vs P, Q+(-1)Q vs O); the trace spec keeps the set of "
          "(type, encoding, hash) seen and rejects a second hash for the same encoding.", "5 C08"),
+ "C12": ("Equiv.tla: two replicas (arkworks build, minimal build) consume one operation stream made only of calls both builds "
+         "offer (12 add/sub forms, neg, double, 10 scalar-multiplication forms, 8 decoding entry points on valid / mutated / "
+         "random / wrong-length strings, 5 encoding forms, Elligator and the two-input hash, equality and identity predicates; "
+         "for each of the three fields 27 binary forms, unary forms, sums/products, From<int>, serialisation, checked parsing, "
+         "reduction of strings of length 0..200, ordering, hashing; Fq select / ct_eq / power). The driver zips the two "
+         "transcripts; TLC accepts a pair only if call, arguments and every observable (all logged fields but the internal "
+         "representative) are identical, and each transcript is separately validated as a behaviour of Session / FieldAPI.", "5 C12"),
  "C17": ("Exhaustive over the finite list of public constants of both builds (105 + 41 constant reads): each is dumped by the "
          "harness as a canonical integer and TLC checks its defining equation recomputed from the modulus / curve alone "
          "(2*HALF+1=p, bit size, two-adicity by definition, TRACE*2^s=p-1 odd, generator = conventional one and g^((p-1)/l)!=1 "
